@@ -147,6 +147,27 @@ func genLC(r *prng) *plan {
 	p.Cfg["nkeys"] = int64(2 + r.intn(5))
 	p.Cfg["hasnext"] = int64(r.intn(2))
 	n := 4 + r.intn(8)
+	if r.chance(35) {
+		// a story across a period boundary: learn the next committee with a supermajority full update,
+		// let more than a period of virtual time pass, then finalize in the next period (rotation),
+		// with a few bent updates in between
+		bent := func() opSpec {
+			return opSpec{K: "update", N: []int64{int64(r.intn(3)), int64([]int{4, 2, 8}[r.intn(3)]), int64(r.intn(10)), int64(r.intn(13)), int64(r.intn(5) / 3), int64(r.u64() >> 1)}}
+		}
+		p.Ops = append(p.Ops, opSpec{K: "update", N: []int64{0, 2, 7, 0, 0, int64(r.u64() >> 1)}})
+		p.Ops = append(p.Ops, bent())
+		p.Ops = append(p.Ops, opSpec{K: "sleep", N: []int64{2, 0}})
+		p.Ops = append(p.Ops, opSpec{K: "update", N: []int64{int64(r.intn(2)), 4, 7, 0, 0, int64(r.u64() >> 1)}})
+		p.Ops = append(p.Ops, bent())
+		p.Ops = append(p.Ops, opSpec{K: "update", N: []int64{0, 2, int64(2 + r.intn(8)), 0, 0, int64(r.u64() >> 1)}})
+		p.Ops = append(p.Ops, bent())
+		if r.chance(50) {
+			p.Ops = append(p.Ops, opSpec{K: "sleep", N: []int64{2, 0}})
+			p.Ops = append(p.Ops, opSpec{K: "update", N: []int64{int64(r.intn(2)), 4, 7, 0, 0, int64(r.u64() >> 1)}})
+			p.Ops = append(p.Ops, bent())
+		}
+		n = r.intn(4)
+	}
 	for i := 0; i < n; i++ {
 		// kind, slot relation, participation class, corruption, time relation, seed
 		// most dimensions are left valid in each update, so that a good share of the updates verifies
@@ -257,7 +278,7 @@ func runLC(seed uint64) {
 		case 2, 3:
 			attSlot = maxU(finSlot, optSlot) + 1 + uint64(ors.intn(64))
 		case 4:
-			attSlot = (storePeriod+1)*lcSlotsPerPeriod + uint64(ors.intn(200)) // next period
+			attSlot = (storePeriod+1)*lcSlotsPerPeriod + 3 + uint64(ors.intn(200)) // next period
 		case 5:
 			attSlot = (storePeriod+2)*lcSlotsPerPeriod + uint64(ors.intn(200)) // two periods ahead
 		case 6:
@@ -293,6 +314,10 @@ func runLC(seed uint64) {
 			default:
 				if attSlot > 64 {
 					updFinSlot = attSlot - 64 + uint64(ors.intn(32))
+				}
+				if op.n(1) == 4 && attSlot%lcSlotsPerPeriod > 2 {
+					// attested early in the next period: finalize inside that period as well
+					updFinSlot = attSlot - 1 - uint64(ors.intn(int(attSlot%lcSlotsPerPeriod)-1))
 				}
 			}
 		}
@@ -441,14 +466,39 @@ func runLC(seed uint64) {
 				nbits++
 			}
 		}
-		// the store's committee must be the one that signed (true in honest histories; false when the
-		// store lacks the next committee or the signer was swapped)
+		// ground truth of the signature clause: an aggregate over the message is valid for the
+		// participating keys exactly when the multiset of keys that signed equals the multiset of the
+		// store's committee keys at the marked positions (committees draw from a few keys, so two
+		// different committees can coincide on a bitmap), and message, domain and bytes are untouched
 		committeeKnown := storeComm != nil
-		if committeeKnown && storeComm != signer.c && corrupt != 8 {
-			// the store holds another committee object for that period than the canonical one
-			if storeComm.HashTreeRoot(lw.spec, tree.GetHashFn()) != signer.root {
-				sigOK = false
+		if committeeKnown {
+			var verifier *lcCommittee
+			for _, c := range lw.comms {
+				if c.c == storeComm {
+					verifier = c
+				}
 			}
+			if verifier == nil {
+				fatal2("lc: store committee not built by the harness")
+			}
+			want := make([]int, len(lw.keys))
+			have := make([]int, len(lw.keys))
+			for i := range bits {
+				if bits[i] {
+					want[verifier.keys[i]]++
+				}
+				if signBits[i] {
+					have[signer.keys[i]]++
+				}
+			}
+			same := true
+			for k := range want {
+				if want[k] != have[k] {
+					same = false
+				}
+			}
+			msgSame := signAtt.HashTreeRoot(tree.GetHashFn()) == att.HashTreeRoot(tree.GetHashFn()) && signVersion == forkVersion && signGenesis == genesisRoot
+			sigOK = same && msgSame && corrupt != 11 && nbits > 0
 		}
 		// --- ground truth, clause by clause ---
 		clauses := map[string]bool{
